@@ -439,3 +439,18 @@ def _r_empty_targets(f):
         return False
     except ValueError as e:
         return "There are not target classes" in str(e)
+
+
+# ------------------------------------------------------------------ C19
+@trigger("rdflib_bnodes_order")
+def _t_c19_bn(f, obs):
+    return obs.get("kind") in ("hashseed", "delivery") and obs.get("bnodes") is True and obs.get("delivery") in ("turtle", "xml", "json-ld", "n3", "graph",
+                                                                                                                "rdflib", "files-rdflib")
+
+
+@replayer("rdflib_bnodes_order")
+def _r_c19_bn(f):
+    import rdflib
+    a = rdflib.Graph().parse(data="_:b <http://e/p> <http://e/o> .", format="nt")
+    b = rdflib.Graph().parse(data="_:b <http://e/p> <http://e/o> .", format="nt")
+    return str(next(iter(a))[0]) != str(next(iter(b))[0])
